@@ -141,8 +141,30 @@ pub(crate) struct RecentSnapshot {
     pub end_offset: u64,
     /// 1-based line number at `bytes[0]}`.
     pub start_line: usize,
+    /// Whether `bytes[0]` continues a line whose beginning is no longer retained.
+    pub starts_mid_line: bool,
     /// Snapshot bytes (oldest -> newest).
     pub bytes: Vec<u8>,
+}
+
+impl RecentSnapshot {
+    /// The retained lines that are complete from their first column, with the 1-based number
+    /// of the first of them.
+    ///
+    /// A first line whose beginning is gone cannot be shown under its line number: columns
+    /// reported for it count from the real start of the line.
+    pub(crate) fn whole_lines(&self) -> (usize, &[u8]) {
+        if !self.starts_mid_line {
+            return (self.start_line, &self.bytes);
+        }
+        // With no line break at all, nothing in the window can be placed.
+        let cut = self
+            .bytes
+            .iter()
+            .position(|&b| b == b'\n')
+            .map_or(self.bytes.len(), |nl| nl + 1);
+        (self.start_line.saturating_add(1), &self.bytes[cut..])
+    }
 }
 
 /// A `Read` wrapper that:
@@ -163,6 +185,8 @@ pub(crate) struct RingReader<R> {
     ring_start_offset: u64,
     // 1-based line number at ring[0] (valid only when ring is non-empty).
     ring_start_line: usize,
+    // Whether ring[0] continues a line whose beginning has been evicted.
+    ring_starts_mid_line: bool,
 
     // Read-ahead bytes (only filled by get_recent()).
     //
@@ -193,6 +217,7 @@ impl<R> RingReader<R> {
             ring: FixedRingBuffer::new(),
             ring_start_offset: 0,
             ring_start_line: 1,
+            ring_starts_mid_line: false,
             stash: FixedRingBuffer::new(),
             returned_total: 0,
         }
@@ -260,6 +285,7 @@ impl<R> RingReader<R> {
             start_offset,
             end_offset,
             start_line,
+            starts_mid_line: self.ring_starts_mid_line,
             bytes,
         })
     }
@@ -296,6 +322,7 @@ impl<R> RingReader<R> {
                 if evicted == Some(b'\n') {
                     self.ring_start_line = self.ring_start_line.saturating_add(1);
                 }
+                self.ring_starts_mid_line = evicted != Some(b'\n');
             }
 
             self.ring.push_back(b);
